@@ -390,6 +390,20 @@ func runCliAndReaders(h *H, prop string, n int) {
 			}
 			lt = append(lt, rec)
 		}
+		if g.intn(4) == 0 {
+			// few records, truster index above trustee index (the size must still cover the truster)
+			lt = nil
+			for i := 0; i < g.intn(2)+1; i++ {
+				a := g.intn(dim)
+				b := g.intn(a + 1)
+				rec := []string{id(a), id(b)}
+				if cols == 3 {
+					rec = append(rec, fmtLevel(g))
+				}
+				lt = append(lt, rec)
+			}
+			g.count("few-descending-records")
+		}
 		ltHeader := []string{"from", "to", "level"}[:cols]
 		lt = mk(lt, ltHeader)
 		vec := func() [][]string {
